@@ -79,10 +79,14 @@ def errJson : PyErr → Json
   | .assertion w => Json.mkObj [("error", "AssertionError"), ("what", jstr w)]
   | .valueError w => Json.mkObj [("error", "ValueError"), ("what", jstr w)]
 
+def aliasLinkOf (j : Json) : Except String AliasLink := do
+  pure { fundamental := ← optStrOf j "fundamental", giname := ← optStrOf j "giname",
+         ctype := (← optStrOf j "ctype").getD [], isConst := optBool j "is_const" false }
+
 def targetOf (j : Json) : Except String Target := do
   let t ← (← j.getObjVal? "t").getStr?
   match t with
-  | "alias" => pure (.alias (← optStrOf j "fundamental") (optBool j "is_const" false))
+  | "alias" => pure (.alias (← (← (← j.getObjVal? "links").getArr?).toList.mapM aliasLinkOf))
   | "boxed" => pure .boxed
   | "compound" => pure (.compound (optBool j "registered" false))
   | "enum" => pure .enumLike
